@@ -74,6 +74,9 @@ def run(ctx) -> None:
   ctx.rule('R4', 'enum maps injective and total; trial-state functions cover every member', 5)
   ctx.rule('R5', 'no mutation of a message after it was copied into its container', 1)
   ctx.rule('R8', 'conditional children are never merged by name during conversion', 1)
+  ctx.rule('R12', 'converters that emit one message per element of a collection emit every element (no element is skipped on its '
+           'field values)', 5)
+  ctx.rule('R13', 'the Pythia endpoint is written with insert_or_assign whenever it is set (one KeyValue per (ns, key))', 1)
   ctx.rule('R11', 'the sequence of intermediate measurements is converted element by element in its stored order (no sort / reverse / set / slice)', 2)
   ctx.rule('R10', 'a to_proto that starts from the remembered proto clears every repeated field before it re-populates it '
            '(otherwise removed entries come back on the wire)', 2)
@@ -120,6 +123,8 @@ def run(ctx) -> None:
   r9_time_conventions(ctx, mi)
   r10_rebuilt_repeated_fields(ctx, schema)
   r11_measurement_order(ctx, mi)
+  r12_no_element_skipped(ctx, mi)
+  r13_endpoint_assign(ctx)
 
 
 # ----------------------------------------------------------------------- R1
@@ -219,6 +224,71 @@ def r1_compare(ctx, schema, ci, wf, rf, ew: Extractor, er: Extractor) -> None:
 
 
 # ----------------------------------------------------------------------- R9
+def r12_no_element_skipped(ctx, mi) -> None:
+  n = 0
+  for ci in mi.classes.values():
+    if not ci.name.endswith('Converter'):
+      continue
+    for m in ci.methods.values():
+      if not m.name.startswith('to_'):
+        continue
+      params = [p_ for p_ in m.params if p_ not in ('cls', 'self')]
+      if not params:
+        continue
+      g = None
+      for lp in (x for x in ast.walk(m.node) if isinstance(x, ast.For)):
+        it_names = {y.id for y in ast.walk(lp.iter) if isinstance(y, ast.Name)}
+        if not (it_names & set(params)):
+          continue
+        # the per-element emission: an append / add / extend / CopyFrom / assign-style call in the body
+        if g is None:
+          g = cfgmod.CFG(m.node)
+        hdr = next((nd for nd in g.nodes if nd.kind == 'for' and nd.ast is lp), None)
+        if hdr is None:
+          continue
+        emits = [nd for nd in g.nodes if nd.loops and nd.loops[-1] is lp and any(
+            isinstance(c.func, ast.Attribute) and c.func.attr in ('append', 'add', 'extend', 'CopyFrom') for c in flow.node_calls(nd))]
+        if not emits:
+          continue
+        n += 1
+        starts = [nd for nd, lab in hdr.succs if nd.loops and nd.loops[-1] is lp]
+        skipped = hdr in g.reachable(starts, blocked=emits, include_starts=True)
+        tvars = {y.id for y in ast.walk(lp.target) if isinstance(y, ast.Name)}
+        # a skip is a defect only if it is decided on the element itself
+        if skipped:
+          tests = [nd for nd in g.nodes if nd.kind == 'test' and nd.loops and nd.loops[-1] is lp
+                   and any(isinstance(y, ast.Name) and y.id in tvars for y in ast.walk(nd.ast))]
+          skipped = bool(tests)
+        ctx.check(not skipped, 'R12', f'{ci.name}.{m.name}: one message per element of `{unparse(lp.iter, 30)}`', lp,
+                  'every pass through the loop emits',
+                  f'an element of `{unparse(lp.iter, 30)}` can be skipped depending on its own fields: what is received is not what was sent '
+                  '(e.g. "keep running" decisions, or metrics with non-finite values, never arrive)', construct=f'{ci.name}.{m.name}:element-skipped',
+                  func=m.qualname)
+  if n < 5:
+    raise AnalysisError(f'only {n} element-wise emitting loops found in the converters')
+
+
+def r13_endpoint_assign(ctx) -> None:
+  sc = ctx.index.need_class('vizier._src.pyvizier.oss.study_config.StudyConfig')
+  fi = sc.methods['to_proto']
+  g = cfgmod.CFG(fi.node)
+  sites = [(nd, c) for nd in g.nodes for c in flow.node_calls(nd) if (dotted(c.func) or '').endswith('assign')
+           and any('PYTHIA_ENDPOINT_KEY' in unparse(k.value, 0) for k in c.keywords)]
+  if not sites:
+    raise AnalysisError('StudyConfig.to_proto: write of the Pythia endpoint not found')
+  for nd, c in sites:
+    kw = {k.arg: k.value for k in c.keywords}
+    mode_ok = isinstance(kw.get('mode'), ast.Constant) and kw['mode'].value == 'insert_or_assign'
+    extra = [unparse(t, 0) for t, pol in g.controlling_conditions(nd)
+             if not (isinstance(t, ast.Compare) and len(t.ops) == 1 and isinstance(t.ops[0], (ast.IsNot, ast.Is))
+                     and isinstance(t.comparators[0], ast.Constant) and t.comparators[0].value is None and 'pythia_endpoint' in unparse(t.left, 0))]
+    ctx.check(mode_ok and not extra, 'R13', 'StudyConfig.to_proto: endpoint written with insert_or_assign whenever set', c,
+              "mode='insert_or_assign', guarded by `pythia_endpoint is not None` only",
+              (f'the write also depends on `{extra[0]}`' if extra else 'the write does not use insert_or_assign') +
+              ': a config whose endpoint was changed after loading carries two KeyValues for the endpoint key (or the stale one only); readers '
+              'that take the first match see the old endpoint, and a second conversion differs', construct='endpoint-assign', func=fi.qualname)
+
+
 def r11_measurement_order(ctx, mi) -> None:
   tc = mi.classes.get('TrialConverter')
   if tc is None:
@@ -331,6 +401,19 @@ def r9_time_conventions(ctx, mi) -> None:
     elif last in ('fromtimestamp', 'timestamp'):
       n_ok += 1
   fn = lambda x: next((a.name for a in __import__('vzstatic.source', fromlist=['ancestors']).ancestors(x) if isinstance(a, ast.FunctionDef)), '?')
+  # components of a timedelta (`.seconds` wraps at one day, `.microseconds` at one second) used without `.days`
+  for x in ast.walk(mi.tree):
+    if isinstance(x, ast.Attribute) and x.attr in ('seconds', 'microseconds') and isinstance(x.ctx, ast.Load):
+      f_ = next((a for a in __import__('vzstatic.source', fromlist=['ancestors']).ancestors(x) if isinstance(a, ast.FunctionDef)), None)
+      base = flow.resolve_local(f_, x.value) if f_ is not None else x.value
+      is_td = (isinstance(base, ast.Call) and (dotted(base.func) or '').endswith('timedelta')) or \
+          (isinstance(base, ast.BinOp) and isinstance(base.op, ast.Sub))
+      if is_td and x.attr == 'seconds' and f_ is not None and not any(
+          isinstance(y, ast.Attribute) and y.attr == 'days' for y in ast.walk(f_)):
+        ctx.bad('R9', f'{fn(x)}: `{unparse(x, 40)}`', x,
+                f'`{unparse(x, 40)}` is the seconds *component* of a timedelta (0..86399), not its length: every whole day of a duration is dropped '
+                '(a measurement taken after 25 h arrives as 1 h); total_seconds() is the length', construct=f'{fn(x)}:timedelta-seconds',
+                func=f'{mi.name}.{fn(x)}')
   for h in hits:
     ctx.bad('R9', f'{fn(h)}: `{unparse(h, 50)}`', h,
             f'`{unparse(h, 60)}` yields a naive UTC datetime; the Python-side class interprets naive datetimes as local time, so on a host '
